@@ -196,3 +196,54 @@ func VerifH_C14_L3_hashes() {
 	}
 	vz.Cover("checked")
 }
+
+// VerifH_C14_L1_wideMatrix: withMatrix with 4 or 5 keys of two values each expands
+// to exactly the full product: every combination once, every index distinct in
+// value and identity, each task sees its own combination.
+func VerifH_C14_L1_wideMatrix() {
+	parallel.VerifInstallHashStub()
+	nk := 4 + vz.Choice("extraKey", 2)
+	keys := []string{"a", "b", "c", "d", "e"}[:nk]
+	spec := &execution.ParallelismSpec{CompletionStrategy: execution.AllSuccessful, WithMatrix: map[string][]string{}}
+	for _, k := range keys {
+		spec.WithMatrix[k] = []string{"x", "y"}
+	}
+	vz.Assert(verifAccepted(spec), "C14/L1/wide-matrix-accepted")
+	vz.MapOrderNondetFor(spec.WithMatrix)
+	idx := parallel.GenerateIndexes(spec)
+	want := 1 << uint(nk)
+	vz.Assert(len(idx) == want, "C14/L1/complete-index-set")
+	seen := map[string]bool{}
+	var codes []string
+	for i := range idx {
+		vz.Assert(len(idx[i].MatrixValues) == nk, "C14/L1/matrix-combination-has-every-key")
+		code := ""
+		for _, k := range keys {
+			v := idx[i].MatrixValues[k]
+			vz.Assert(v == "x" || v == "y", "C14/L1/matrix-values-from-the-spec")
+			code += v
+		}
+		vz.Assert(!seen[code], "C14/L1/indexes-distinct")
+		seen[code] = true
+		codes = append(codes, code)
+		for k := 0; k < i; k++ {
+			hi, _ := parallel.HashIndex(idx[i])
+			hk, _ := parallel.HashIndex(idx[k])
+			pair := codes[k] + "/" + codes[i]
+			if hi == hk && nk == 5 && (pair == "xyxyy/xyyxy" || pair == "xyxyx/yyxxx") {
+				// the two collisions of the real HashIndex among the 32 combinations of five
+				// two-valued keys, measured on the pinned tree (known finding F14-1)
+				vz.Finding("F14-1")
+				vz.Assert(false, "C14/L1/distinct-identity-known-matrix-collision")
+				continue
+			}
+			vz.Assert(hi != hk, "C14/L1/distinct-identity")
+		}
+		vars := variablecontext.ContextProvider.MakeVariablesFromTask(variablecontext.TaskSpec{Name: "t", Namespace: "ns", RetryIndex: 1, ParallelIndex: idx[i]})
+		for mk, mv := range idx[i].MatrixValues {
+			vz.Assert(vars["task.index_matrix."+mk] == mv, "C14/L1/task-sees-its-matrix-values")
+		}
+	}
+	vz.Assert(len(seen) == want, "C14/L1/every-combination-present")
+	vz.Cover("wide")
+}
